@@ -4,6 +4,7 @@ package fdo
 
 import (
 	"context"
+	"errors"
 	"crypto"
 	"crypto/x509"
 	"io"
@@ -21,7 +22,12 @@ type vWorld struct {
 	store    *vState // persistent part (vouchers, blobs, owner keys) and effect counters
 	log      []string
 	next     int
+	// storage fault injection: the faultAt-th session-state access (1-based) fails
+	// with an error that is not ErrNotFound; 0 = never
+	stCalls, faultAt int
 }
+
+var errStorageFault = errors.New("harness: injected storage fault")
 
 type vTokKey struct{}
 
@@ -61,6 +67,10 @@ func (w *vWorld) TokenFromContext(ctx context.Context) (string, bool) {
 }
 
 func (w *vWorld) st(ctx context.Context) (*vState, error) {
+	w.stCalls++
+	if w.stCalls == w.faultAt {
+		return nil, errStorageFault
+	}
 	tok, _ := ctx.Value(vTokKey{}).(string)
 	s, ok := w.sessions[tok]
 	if !ok {
